@@ -2713,7 +2713,7 @@ async fn template_round(pool: &mut Pool, st: &mut St, rng: &mut Rng, only: Optio
                 continue;
             }
             // delta-minimise the fault list (bounded: re-running cases costs sessions)
-            let (min, evm) = if st.minimised < 60 && faults.len() > 1 {
+            let (min, evm) = if st.minimised < 200 && !faults.is_empty() {
                 st.minimised += 1;
                 minimize(pool, st, &t, &keys, &faults, pre_a, &f.clause).await?
             } else {
@@ -2899,7 +2899,7 @@ fn run() {
     if mode == "socket" || mode == "both" {
         let mut rng = Rng::new(params.seed ^ 0xC05_E2E);
         st.mode = "socket";
-        st.templates_left = params.get_u64("templates", params.n(700, 6000));
+        st.templates_left = params.get_u64("templates", params.n(1500, 8000));
         st.minimised = 0;
         let stop = if mode == "both" { budget * 0.5 } else { budget * 0.92 };
         run_mode(&mut st, &mut rng, only.as_deref(), stop);
@@ -2907,7 +2907,7 @@ fn run() {
     if mode == "direct" || mode == "both" {
         let mut rng = Rng::new(params.seed ^ 0xC05_D1E);
         st.mode = "direct";
-        st.templates_left = params.get_u64("templates", params.n(2500, 25000));
+        st.templates_left = params.get_u64("templates", params.n(4000, 30000));
         st.minimised = 0;
         run_mode(&mut st, &mut rng, only.as_deref(), budget * 0.92);
     }
